@@ -47,7 +47,7 @@ class C20(BaseCheck):
   REQUIRED_ANCHORS = ANCHORS
   REQUIRED_CLASSES = ('name:plain', 'name:x_', 'name:x__', 'name:_x', 'name:__x__', 'uri:tcp', 'uri:zk',
                       'uri:bad', 'result:error', 'result:later', 'inherited', 'function-name-differs', 'alias',
-                      'uri:tcp-read-again', 'kwargs:loaded-names', 'ancestors-proxied-first', 'declared:classmethod', 'declared:staticmethod', 'declared:abstractmethod')
+                      'uri:tcp-read-again', 'kwargs:loaded-names', 'ancestors-proxied-first', 'declared:classmethod', 'declared:staticmethod', 'declared:abstractmethod', 'uri:other-parser-extended')
   ASSUMPTIONS = ('public method = every user method that is not a dunder name (the property quantifies over names '
                  'with leading and trailing underscores, so _x and _x_ are judged like any other); names that collide with '
                  'another method\'s _async form or with the proxy base class are not generated',)
@@ -247,6 +247,19 @@ class C20(BaseCheck):
     disp.script = None
 
     # ---- URIs
+    if idx % 3 == 1:
+      # another component of the process has a parser of its own that it has taught a further scheme
+      # (the handler table is a public attribute), and a subclass with its own tcp handling: neither
+      # is any business of the parsers built afterwards
+      classes.add('uri:other-parser-extended')
+      other = ScalesUriParser()
+      other.handlers['http'] = lambda u: 'handled-by-the-other-parser'
+      other.handlers['ftp'] = other.handlers['http']
+
+      class _MyParser(ScalesUriParser):
+        def _HandleTcp(self, uri):
+          return 'custom-tcp'
+      _MyParser()
     parser = ScalesUriParser()
     uri_kinds = set()
     for _ in range(6):
